@@ -6,6 +6,8 @@
  *   hs P (a i j b)*P ops...                -> "H h_0 .. h_{P-1}" then per op " ; ret size bits"
  *   hp P (a i j b key)*P ops...            -> per op " ; ret size h<1 iff the array is heap ordered>", then the heap popped to empty
  *   vc P (a i j b)*P ops...                -> per op " ; ret size ids-in-order"
+ *   hc M P (a i j b)*P NR ops...           -> set elements that are RESULTS of polynomial operations over Z / Z_M
+ *                                             (see run_hc)
  * every line ends with leak=<bytes still allocated after everything of the case was destroyed, minus the
  * bytes allocated before the case> (0 = nothing leaked; measured with the sanitizer allocator interface).  A library call that does not return
  * within the watchdog time (2 s) is abandoned: the line so far + " HANG"; a failing assert of the library:
@@ -71,38 +73,53 @@ static void watchdog(int on) {
 }
 
 /* ---- context and pool */
-static void ctx_open(void) {
+static lp_int_ring_t* g_K = NULL;
+static void ctx_open_ring(long m);
+static void ctx_open(void) { ctx_open_ring(0); }
+static void ctx_open_ring(long m) {
+  if (m > 0) {
+    lp_integer_t M;
+    lp_integer_construct_from_int(lp_Z, &M, m);
+    g_K = lp_int_ring_create(&M, 1);
+    lp_integer_destruct(&M);
+  } else g_K = NULL;
   g_db = lp_variable_db_new();
   g_ord = lp_variable_order_new();
   g_x = lp_variable_db_new_variable(g_db, "x");
   g_y = lp_variable_db_new_variable(g_db, "y");
   lp_variable_order_push(g_ord, g_y);
   lp_variable_order_push(g_ord, g_x);
-  g_ctx = lp_polynomial_context_new(lp_Z, g_db, g_ord);
+  g_ctx = lp_polynomial_context_new(g_K ? g_K : lp_Z, g_db, g_ord);
 }
 static void ctx_close(void) {
   lp_polynomial_context_detach(g_ctx);
   lp_variable_order_detach(g_ord);
   lp_variable_db_detach(g_db);
+  if (g_K) { lp_int_ring_detach(g_K); g_K = NULL; }
 }
 /* bytes currently allocated, not counting the output buffer of this driver */
 static long live_bytes(void) { return (long)__sanitizer_get_current_allocated_bytes() - (long)g_cap; }
 
-/* a*x^i*y^j + b */
+/* a*x^i*y^j + b  (a, b taken into the ring of the context) */
 static lp_polynomial_t* mkpoly(long a, unsigned i, unsigned j, long b) {
+  lp_int_ring_t* K = g_K ? g_K : lp_Z;
   lp_integer_t c;
-  lp_integer_construct_from_int(lp_Z, &c, a);
-  lp_polynomial_t* p = lp_polynomial_alloc();
-  lp_polynomial_construct_simple(p, g_ctx, &c, g_x, i);
-  if (j > 0) {
-    lp_integer_assign_int(lp_Z, &c, 1);
-    lp_polynomial_t* q = lp_polynomial_alloc();
-    lp_polynomial_construct_simple(q, g_ctx, &c, g_y, j);
-    lp_polynomial_mul(p, p, q);
-    lp_polynomial_delete(q);
+  lp_integer_construct_from_int(K, &c, a);
+  lp_polynomial_t* p;
+  if (lp_integer_is_zero(K, &c)) p = lp_polynomial_new(g_ctx);
+  else {
+    p = lp_polynomial_alloc();
+    lp_polynomial_construct_simple(p, g_ctx, &c, g_x, i);
+    if (j > 0) {
+      lp_integer_assign_int(K, &c, 1);
+      lp_polynomial_t* q = lp_polynomial_alloc();
+      lp_polynomial_construct_simple(q, g_ctx, &c, g_y, j);
+      lp_polynomial_mul(p, p, q);
+      lp_polynomial_delete(q);
+    }
   }
-  if (b != 0) {
-    lp_integer_assign_int(lp_Z, &c, b);
+  lp_integer_assign_int(K, &c, b);
+  if (!lp_integer_is_zero(K, &c)) {
     lp_polynomial_t* q = lp_polynomial_alloc();
     lp_polynomial_construct_simple(q, g_ctx, &c, g_x, 0);
     lp_polynomial_add(p, p, q);
@@ -377,6 +394,159 @@ static void run_vc(void) {
   free_pool();
 }
 
+/* ------------------------------------------------------------------------------------------ computed elements
+ * hc M P (a i j b)*P NR ops...   one context over Z (M = 0) or Z_M, NR result registers (zero at the start).
+ * Elements of the set are RESULTS of polynomial operations whose operands and outputs have cached hashes.
+ * Every polynomial value that occurs gets a value id: the index of an INDEPENDENTLY built equal polynomial
+ * (rebuilt monomial by monomial, so its hash is computed from its own data) in g_val; id 0 is the zero polynomial.
+ *   h<src>            force lp_polynomial_hash(src)          src = p<k> (pool) | r<k> (register)
+ *   C<op>,<d>,<a>,<b>,<n>   register d = op(a, b, n)          (operands may be register d itself)
+ *   i<src> / r<src>   insert / remove with the object itself  I<src> / R<src>  with the independent equal one
+ *   m<src>            insert_move of a copy of src (the copy carries src's cached hash)
+ *   k clear, z close + enumeration (only k may follow)
+ * after each op: ret size, contains of every value known so far (asked with the independent polynomials),
+ * contains of every register (asked with the register itself), the value ids of the registers;
+ * at the end "T" + the hash of every value (the model's hash function for this case). */
+#define MAXV 1024
+#define MAXR 8
+static lp_polynomial_t* g_val[MAXV];
+static int g_nval;
+static lp_polynomial_t* g_reg[MAXR];
+static int g_NR;
+
+static void add_mono(const lp_polynomial_context_t* ctx, lp_monomial_t* m, void* data) {
+  (void)ctx;
+  lp_polynomial_add_monomial((lp_polynomial_t*)data, m);
+}
+static lp_polynomial_t* rebuild(const lp_polynomial_t* p) {
+  lp_polynomial_t* q = lp_polynomial_new(g_ctx);
+  lp_polynomial_traverse(p, add_mono, q);
+  return q;
+}
+static int vid_of(const lp_polynomial_t* p) {
+  for (int k = 0; k < g_nval; ++k) if (lp_polynomial_cmp(p, g_val[k]) == 0) return k;
+  if (g_nval >= MAXV) return -1;
+  g_val[g_nval] = rebuild(p);
+  return g_nval++;
+}
+static lp_polynomial_t* hc_src(const char* s) {
+  int k = atoi(s + 1);
+  if (s[0] == 'p' && k >= 0 && k < g_P) return g_pool[k];
+  if (s[0] == 'r' && k >= 0 && k < g_NR) return g_reg[k];
+  return NULL;
+}
+static void hc_compute(char* spec) {
+  /* op,d,a,b,n */
+  char* f[5] = { "", "0", "p0", "p0", "0" };
+  int nf = 0;
+  for (char* t = strtok(spec, ","); t && nf < 5; t = strtok(NULL, ",")) f[nf++] = t;
+  const char* op = f[0];
+  int d = atoi(f[1]) % g_NR;
+  lp_polynomial_t* D = g_reg[d];
+  lp_polynomial_t* A = hc_src(f[2]);
+  lp_polynomial_t* B = hc_src(f[3]);
+  unsigned n = (unsigned)atoi(f[4]);
+  if (!A) A = g_pool[0];
+  if (!B) B = g_pool[0];
+  if (!strcmp(op, "add")) lp_polynomial_add(D, A, B);
+  else if (!strcmp(op, "sub")) lp_polynomial_sub(D, A, B);
+  else if (!strcmp(op, "mul")) lp_polynomial_mul(D, A, B);
+  else if (!strcmp(op, "addmul")) lp_polynomial_add_mul(D, A, B);
+  else if (!strcmp(op, "submul")) lp_polynomial_sub_mul(D, A, B);
+  else if (!strcmp(op, "neg")) lp_polynomial_neg(D, A);
+  else if (!strcmp(op, "pow")) lp_polynomial_pow(D, A, n % 4);
+  else if (!strcmp(op, "shl") && !lp_polynomial_is_constant(A)) lp_polynomial_shl(D, A, n % 4);
+  else if (!strcmp(op, "muli")) { lp_integer_t c; lp_integer_construct_from_int(g_K ? g_K : lp_Z, &c, (long)n - 3); lp_polynomial_mul_integer(D, A, &c); lp_integer_destruct(&c); }
+  else if (!strcmp(op, "der")) lp_polynomial_derivative(D, A);
+  else if (!strcmp(op, "red") && g_K) lp_polynomial_reduce_degree_Zp(D, A);
+  else if (!strcmp(op, "coef")) lp_polynomial_get_coefficient(D, A, n % 4);
+  else if (!strcmp(op, "reductum") && !lp_polynomial_is_constant(A)) lp_polynomial_reductum(D, A);
+  else if (!strcmp(op, "asg")) lp_polynomial_assign(D, A);
+  else if (!strcmp(op, "swap") && f[2][0] == 'r' && f[3][0] == 'r' && A != B) lp_polynomial_swap(A, B);
+  else if (!strcmp(op, "pp") && !g_K && !lp_polynomial_is_zero(A)) lp_polynomial_pp(D, A);
+  else if (!strcmp(op, "cont") && !g_K && !lp_polynomial_is_zero(A)) lp_polynomial_cont(D, A);
+  else if (!strcmp(op, "ppcont") && !g_K && !lp_polynomial_is_zero(A)) {
+    lp_polynomial_t* D2 = g_reg[(d + 1) % g_NR];
+    if (D2 != D && D2 != A) lp_polynomial_pp_cont(D, D2, A); else lp_polynomial_pp(D, A);
+  }
+  else { oprintf(" skip"); return; }
+  oprintf(" =");
+}
+static void run_hc(void) {
+  /* vtok: hc M P pool... NR ops ; the context was opened over Z_M by main */
+  for (int k = 2; k < vntok; ++k) vtok[k - 1] = vtok[k];     /* drop M so that read_pool sees "P pool" */
+  --vntok;
+  int t = read_pool(0);
+  g_NR = atoi(vtok[t++]);
+  if (g_NR < 1) g_NR = 1;
+  if (g_NR > MAXR) g_NR = MAXR;
+  g_nval = 0;
+  for (int k = 0; k < g_NR; ++k) g_reg[k] = lp_polynomial_new(g_ctx);
+  vid_of(g_reg[0]);                                               /* value 0 = the zero polynomial */
+  oprintf("C");
+  for (int k = 0; k < g_P; ++k) oprintf(" %d", vid_of(g_pool[k]));
+  lp_polynomial_hash_set_t* set = lp_polynomial_hash_set_new();
+  int closed = 0;
+  for (; t < vntok; ++t) {
+    char* op = vtok[t];
+    oprintf(" ;");
+    lp_polynomial_t* src = (op[0] != 'C' && op[0] != 'k' && op[0] != 'z') ? hc_src(op + 1) : NULL;
+    if (op[0] != 'C' && op[0] != 'k' && op[0] != 'z' && !src) { oprintf(" ?"); continue; }
+    switch (op[0]) {
+    case 'h': (void)lp_polynomial_hash(src); oprintf(" -"); break;
+    case 'C': hc_compute(op + 1); break;
+    case 'i': oprintf(" %d", lp_polynomial_hash_set_insert(set, src)); break;
+    case 'I': { lp_polynomial_t* q = rebuild(src); oprintf(" %d", lp_polynomial_hash_set_insert(set, q)); lp_polynomial_delete(q); break; }
+    case 'r': oprintf(" %d", lp_polynomial_hash_set_remove(set, src)); break;
+    case 'R': { lp_polynomial_t* q = rebuild(src); oprintf(" %d", lp_polynomial_hash_set_remove(set, q)); lp_polynomial_delete(q); break; }
+    case 'm': {
+      lp_polynomial_t* tmp = lp_polynomial_new_copy(src);
+      int r = lp_polynomial_hash_set_insert_move(set, tmp);
+      /* inserted: the source must be zero now; not inserted: it must be unchanged */
+      oprintf(" %d%c", r, r ? (lp_polynomial_is_zero(tmp) ? 'z' : '?') : (lp_polynomial_cmp(tmp, src) == 0 ? 's' : '?'));
+      lp_polynomial_delete(tmp);
+      break;
+    }
+    case 'k': lp_polynomial_hash_set_clear(set); closed = 0; oprintf(" -"); break;
+    case 'z': {
+      lp_polynomial_hash_set_close(set);
+      closed = 1;
+      size_t n = lp_polynomial_hash_set_size(set);
+      int* got = malloc((n + 1) * sizeof(int));
+      for (size_t q = 0; q < n; ++q) {
+        const lp_polynomial_t* p = lp_polynomial_hash_set_at(set, q);
+        got[q] = p ? vid_of(p) : -2;
+      }
+      qsort(got, n, sizeof(int), cmp_int);
+      oprintf(" a:");
+      for (size_t q = 0; q < n; ++q) oprintf("%s%d", q ? "." : "", got[q]);
+      free(got);
+      break;
+    }
+    default: oprintf(" ?"); break;
+    }
+    /* value ids of the registers first: a new value must be known before it is asked for */
+    int rv[MAXR];
+    for (int k = 0; k < g_NR; ++k) rv[k] = vid_of(g_reg[k]);
+    oprintf(" %zu ", lp_polynomial_hash_set_size(set));
+    if (closed) oprintf("closed closed");
+    else {
+      for (int k = 0; k < g_nval; ++k) oprintf("%d", lp_polynomial_hash_set_contains(set, g_val[k]));
+      oprintf(" ");
+      for (int k = 0; k < g_NR; ++k) oprintf("%d", lp_polynomial_hash_set_contains(set, g_reg[k]));
+    }
+    oprintf(" R:");
+    for (int k = 0; k < g_NR; ++k) oprintf("%s%d", k ? "." : "", rv[k]);
+  }
+  oprintf(" ; T");
+  for (int k = 0; k < g_nval; ++k) oprintf(" %zu", lp_polynomial_hash(g_val[k]));
+  lp_polynomial_hash_set_delete(set);
+  for (int k = 0; k < g_NR; ++k) lp_polynomial_delete(g_reg[k]);
+  for (int k = 0; k < g_nval; ++k) lp_polynomial_delete(g_val[k]);
+  g_nval = 0;
+  free_pool();
+}
+
 int main(void) {
   struct sigaction sa;
   memset(&sa, 0, sizeof sa);
@@ -387,7 +557,7 @@ int main(void) {
     if (vntok == 0) { end_case(); continue; }
     g_len = 0;
     long before = live_bytes();
-    ctx_open();
+    ctx_open_ring(is_op("hc") && vntok > 1 ? atol(vtok[1]) : 0);
     int why = sigsetjmp(g_jmp, 1);
     if (why) {
       /* a library call did not return, or an assert of the library failed: abandon the case (its
@@ -410,6 +580,7 @@ int main(void) {
     else if (is_op("hs")) run_hs();
     else if (is_op("hp")) run_hp();
     else if (is_op("vc")) run_vc();
+    else if (is_op("hc")) run_hc();
     else oprintf("UNKNOWN-OP");
     watchdog(0);
     ctx_close();
